@@ -532,6 +532,69 @@ frg%(u)s(n: SI): SI == {
     return d, [], "frg%s(%d)" % (u, cells)
 
 
+def b_sizes(u, rng, n):
+    """Large arrays of many DIFFERENT sizes, each followed by a few small arrays that stay alive;
+    the large ones are dropped, so a collection leaves free pieces of many distinct sizes with live
+    neighbours (a free tree of several levels); then larger and larger arrays are requested and
+    everything that was kept is verified."""
+    N = rng.choice([40, 70, 90, 140])
+    base, step = rng.choice([300, 700, 1100, 2100]), rng.choice([8, 32, 40, 136])
+    nb = rng.range(3, 9)
+    small = rng.choice([20, 60, 100])
+    gbase, gstep, gm = rng.choice([5000, 9000, 30000]), rng.choice([300, 700, 2500]), rng.choice([10, 40, 80])
+    d = '''
+szmk%(u)s(n: SI, tag: SI): PrimitiveArray SI == {
+	import from PrimitiveArray SI;
+	arr: PrimitiveArray SI := new(n, tag);
+	arr.1 := n;
+	arr
+}
+szsum%(u)s(l: List PrimitiveArray SI): SI == {
+	import from PrimitiveArray SI;
+	s: SI := 0;
+	for x in l repeat {
+		n := x.1;
+		for k: SI in 2..n repeat s := (s + x.k) rem %(M)d;
+		s := (s + n) rem %(M)d;
+	}
+	s
+}
+szbuild%(u)s(N: SI): List PrimitiveArray SI == {
+	import from List PrimitiveArray SI;
+	keep: List PrimitiveArray SI := nil;
+	drop: List PrimitiveArray SI := nil;
+	for i: SI in 1..N repeat {
+		drop := cons(szmk%(u)s(%(base)d + %(step)d * i, i), drop);
+		for j: SI in 1..%(nb)d repeat keep := cons(szmk%(u)s(%(small)d, 100 * i + j), keep);
+	}
+	keep := cons(szmk%(u)s(2, szsum%(u)s drop), keep);
+	keep
+}
+szchurn%(u)s(R: SI): SI == {
+	import from List PrimitiveArray SI;
+	t: SI := 0;
+	for r: SI in 1..R repeat {
+		junk: List PrimitiveArray SI := nil;
+		for j: SI in 1..200 repeat junk := cons(szmk%(u)s(20, j), junk);
+		t := (t + szsum%(u)s junk) rem %(M)d;
+	}
+	t
+}
+szs%(u)s(n: SI): SI == {
+	import from List PrimitiveArray SI;
+	keep := szbuild%(u)s(%(N)d);
+	t := szchurn%(u)s(n);
+	big: List PrimitiveArray SI := nil;
+	for i: SI in 1..%(gm)d repeat big := cons(szmk%(u)s(%(gbase)d + %(gstep)d * i, i), big);
+	t := (t + szsum%(u)s keep) rem %(M)d;
+	t := (t + szsum%(u)s big) rem %(M)d;
+	t := (t + szchurn%(u)s(10)) rem %(M)d;
+	(t + szsum%(u)s keep) rem %(M)d
+}
+''' % dict(u=u, M=M, N=N, base=base, step=step, nb=nb, small=small, gbase=gbase, gstep=gstep, gm=gm)
+    return d, [], "szs%s(%d)" % (u, rng.choice([20, 60]))
+
+
 def b_bigdrop(u, rng, n):
     """One very large object per round (a section of its own), built deep in a recursion so
     that no stale copy of its address stays in the frames that run later, dropped, and
@@ -578,7 +641,7 @@ BLOCKS = [("list", b_list, 4), ("record", b_record, 4), ("node", b_node, 2), ("c
           ("docs", b_docs, 2), ("exn", b_exn, 2), ("union", b_union, 2), ("float", b_float, 1), ("tokens", b_tokens, 1),
           ("deeprec", b_deeprec, 2), ("ptrarray", b_ptrarray, 2), ("dyndom", b_dyndom, 2),
           ("strops", b_strops, 2), ("arrgrow", b_arrgrow, 2), ("bigarray", b_bigarray, 3), ("rawrec", b_rawrec, 0),	# rawrec: compiled route only (the interpreter has no RRFmt)
-          ("frag", b_frag, 0), ("chain", b_chain, 0), ("bigdrop", b_bigdrop, 0)]	# weight 0: only when forced (expensive)
+          ("frag", b_frag, 0), ("chain", b_chain, 0), ("bigdrop", b_bigdrop, 0), ("sizes", b_sizes, 0)]	# weight 0: only when forced (expensive)
 
 
 def gen_blocks(rng, size="small", force=()):
